@@ -193,7 +193,7 @@ structure Rel (c : Codec) (sp : SpecSt) (n : Node) (clock : Int) : Prop where
   pos : sp.pos = n.pos
   conn : sp.conn = [(n.peers 0).connected, (n.peers 1).connected, (n.peers 2).connected, (n.peers 3).connected, (n.peers 4).connected, (n.peers 5).connected]
   durs : sp.durs = [(n.peers 0).dur, (n.peers 1).dur, (n.peers 2).dur, (n.peers 3).dur, (n.peers 4).dur, (n.peers 5).dur]
-  dropped : sp.dropped = false
+  dropped : sp.dropped = n.dropped
   rel : ∀ p, (n.peers p).related = related p
 
 theorem ghostOrder_eq (c : Codec) (sp : SpecSt) (n : Node) (t : Int) (h : Rel c sp n t) : ghostOrder sp = ghostAll sp := by
@@ -274,13 +274,14 @@ theorem Rel.mono {c : Codec} {sp : SpecSt} {n : Node} {t t' : Int} (h : Rel c sp
 theorem Rel.of_peers {c : Codec} {sp : SpecSt} {n : Node} {t : Int} (h : Rel c sp n t) (n' : Node) (conn' : List Bool)
     (hs : n'.snd = n.snd)
     (hconn : conn' = [(n'.peers 0).connected, (n'.peers 1).connected, (n'.peers 2).connected, (n'.peers 3).connected, (n'.peers 4).connected, (n'.peers 5).connected])
-    (hd : ∀ i, (n'.peers i).dur = (n.peers i).dur) (hrel : ∀ i, (n'.peers i).related = (n.peers i).related) :
+    (hd : ∀ i, (n'.peers i).dur = (n.peers i).dur) (hrel : ∀ i, (n'.peers i).related = (n.peers i).related)
+    (hdr : n'.dropped = n.dropped := by rfl) :
     Rel c { sp with pos := n'.pos, conn := conn' } n' t :=
   { isOpen := by rw [hs]; exact h.isOpen, files := by rw [hs]; exact h.files, cur := by rw [hs]; exact h.cur,
     curSize := h.curSize, torn := h.torn, intact := h.intact, sorted := h.sorted,
     nameLe := by rw [hs]; exact h.nameLe, lastPos := by rw [hs]; exact h.lastPos, lastLe := by rw [hs]; exact h.lastLe,
     incr := h.incr, tsLe := h.tsLe, curLe := by rw [hs]; exact h.curLe, named := h.named, pos := rfl, conn := hconn,
-    durs := by simp only [h.durs, hd], dropped := h.dropped,
+    durs := by simp only [h.durs, hd], dropped := by rw [hdr]; exact h.dropped,
     rel := fun p => by rw [hrel]; exact h.rel p }
 
 theorem six (p : Nat) (hp : p < 6) : p = 0 ∨ p = 1 ∨ p = 2 ∨ p = 3 ∨ p = 4 ∨ p = 5 := by omega
@@ -361,7 +362,8 @@ theorem Rel.of_touch {c : Codec} {sp : SpecSt} {n : Node} {t : Int} (h : Rel c s
     (hf : n'.snd.files = n.snd.files) (hcur : n'.snd.current = n.snd.current) (ho : n'.snd.isOpen = true)
     (hl1 : n.snd.lastTs ≤ n'.snd.lastTs) (hl2 : n'.snd.lastTs ≤ t') (htt : t ≤ t')
     (hconn : conn' = [(n'.peers 0).connected, (n'.peers 1).connected, (n'.peers 2).connected, (n'.peers 3).connected, (n'.peers 4).connected, (n'.peers 5).connected])
-    (hd : ∀ i, (n'.peers i).dur = (n.peers i).dur) (hrel : ∀ i, (n'.peers i).related = (n.peers i).related) :
+    (hd : ∀ i, (n'.peers i).dur = (n.peers i).dur) (hrel : ∀ i, (n'.peers i).related = (n.peers i).related)
+    (hdr : n'.dropped = n.dropped := by rfl) :
     Rel c { sp with pos := n'.pos, conn := conn' } n' t' :=
   { isOpen := ho, files := by rw [hf]; exact h.files, cur := by rw [hcur]; exact h.cur,
     curSize := h.curSize, torn := h.torn, intact := h.intact, sorted := h.sorted,
@@ -369,7 +371,7 @@ theorem Rel.of_touch {c : Codec} {sp : SpecSt} {n : Node} {t : Int} (h : Rel c s
     lastPos := by have := h.lastPos; omega, lastLe := hl2,
     incr := h.incr, tsLe := fun g hg => by have := h.tsLe g hg; omega,
     curLe := fun g hg => by have := h.curLe g hg; omega, named := h.named, pos := rfl, conn := hconn,
-    durs := by simp only [h.durs, hd], dropped := h.dropped,
+    durs := by simp only [h.durs, hd], dropped := by rw [hdr]; exact h.dropped,
     rel := fun p => by rw [hrel]; exact h.rel p }
 
 theorem step_crashStart (c : Codec) (limit : Nat) (sp : SpecSt) (n : Node) (t now : Int) (sr tr : Bool) (ht : t < now) (h : Rel c sp n t) :
@@ -408,12 +410,12 @@ theorem durs_getD (c : Codec) (sp : SpecSt) (n : Node) (t : Int) (h : Rel c sp n
     sp.durs.getD p 0 = (n.peers p).dur := by
   rw [h.durs]; rcases six p hp with rfl | rfl | rfl | rfl | rfl | rfl <;> rfl
 
-theorem wanted_eq (p : Nat) (lp : Int) (e : Entry) :
-    wanted (fun o => may false p (some o)) lp e = (decide (e.ts > lp) && may false p e.sec) := by
+theorem wanted_eq (d : Bool) (p : Nat) (lp : Int) (e : Entry) :
+    wanted (fun o => may d p (some o)) lp e = (decide (e.ts > lp) && may d p e.sec) := by
   simp only [wanted, skipEntry]
   cases hs : e.sec with
   | none =>
-    have : may false p none = true := rfl
+    have : may d p none = true := rfl
     simp only [this, Bool.or_false, Bool.and_true]
     by_cases hle : e.ts ≤ lp
     · simp [hle]
@@ -428,7 +430,7 @@ theorem step_replay (c : Codec) (limit : Nat) (sp : SpecSt) (n : Node) (t now : 
     (h : Rel c sp n t) :
     ∃ sp', specEnd sp (stepOp c limit n (.replay now p)).2 = some sp' ∧ Rel c sp' (stepOp c limit n (.replay now p)).1 now := by
   let pr := n.peers p
-  let r := replay c.dec (fun o => may false p (some o)) limit now pr.dur pr.lpos n.snd
+  let r := replay c.dec (fun o => may n.dropped p (some o)) limit now pr.dur pr.lpos n.snd
   let n' := ({ n with snd := replaySender now pr.dur n.snd }).setPeer p (fun q => { q with syncing := false })
   have hlp : lpos sp.pos p = pr.lpos := by rw [h.pos, lpos_pos n p hp]
   have hdur := durs_getD c sp n t h p hp
@@ -440,7 +442,7 @@ theorem step_replay (c : Codec) (limit : Nat) (sp : SpecSt) (n : Node) (t now : 
     · have hr : r.out = [] := by simp [r, replay, hd]
       have hd' : (n.peers p).dur = 0 := hd
       simp [hr, hd']
-    · have hex := (replay_exact_aux c.dec (fun o => may false p (some o)) limit now pr.dur pr.lpos n.snd hd
+    · have hex := (replay_exact_aux c.dec (fun o => may n.dropped p (some o)) limit now pr.dur pr.lpos n.snd hd
         (wf_rel c sp n t now h)).1
       have hd' : ((n.peers p).dur != 0) = true := by simpa using hd
       rw [show msgsOf r.out = _ from hex, fullView_rel c sp n t now now h, List.filter_map, List.map_map, hd']
@@ -877,6 +879,46 @@ theorem step_relay (c : Codec) (limit : Nat) (sp : SpecSt) (n : Node) (t now : I
       rw [hsnd, newNames_same n.snd s1 rfl]
       exact hrelA
 
+/-! ## graceful restart (ApiListener::Stop, then a new process) and object removal -/
+
+theorem newNames_congr_new (s s1 s2 : Sender) (h : s1.files = s2.files) : newNames s s1 = newNames s s2 := by
+  simp only [newNames, h]
+
+/-- When `log_message_timestamp` is set (always, once the log has been opened) the time at which Stop runs does not enter
+    the result: RotateLogFile names the file after the LAST RECORD's stamp (apilistener.cpp:1397-1403). -/
+theorem stop_time_irrelevant (t1 t2 : Int) (s : Sender) (h : s.lastTs ≠ 0) : stop t1 s = stop t2 s := by
+  have hne : (s.lastTs == 0) = false := by simpa using h
+  simp only [stop, rotate, rotName, closeLog, hne]
+  rfl
+
+theorem step_stopStart (c : Codec) (limit : Nat) (sp : SpecSt) (n : Node) (t now : Int) (sr tr : Bool) (ht : t < now) (h : Rel c sp n t) :
+    ∃ sp', specEnd sp (stepOp c limit n (.stopStart now sr tr)).2 = some sp' ∧ Rel c sp' (stepOp c limit n (.stopStart now sr tr)).1 now := by
+  have hr := rel_rot c sp n now (h.mono (by omega))
+  let n' : Node := { n with snd := start now (stop now n.snd), satRev := sr, topRev := tr,
+                            peers := fun i => { n.peers i with connected := false, syncing := false } }
+  have hfiles : (start now (stop now n.snd)).files = (rot now n.snd).files := by simp [start, stop, rot, openLog]
+  have hcur : (start now (stop now n.snd)).current = (rot now n.snd).current := by simp [start, stop, rot, openLog]
+  have hnn : newNames n.snd (stop now n.snd) = newNames n.snd (rot now n.snd) :=
+    newNames_congr_new _ _ _ (by simp [rot, stop, openLog])
+  have hrel := hr.of_touch n' now [false, false, false, false, false, false] hfiles hcur (by simp [n', start, openLog])
+    (by simp [n', start, rot, openLog]) (by simp [n', start, openLog]) (Int.le_refl _) (by simp [n']) (fun _ => rfl) (fun _ => rfl)
+  refine ⟨_, ?_, hrel⟩
+  show specEnd sp [⟨.rotate (newNames n.snd (stop now n.snd)).head?, n'.pos⟩, ⟨.restart, n'.pos⟩, ⟨.restart, n'.pos⟩] = _
+  rw [hnn]
+  simp only [specEnd]
+  rw [specStep_rotate sp _ _ (by rw [h.pos]; rfl)]
+  have hp1 : (ghostRot (newNames n.snd (rot now n.snd)).head? sp).pos = n'.pos := by
+    rw [show n'.pos = n.pos from rfl, ← h.pos]
+    cases (newNames n.snd (rot now n.snd)).head? <;> rfl
+  simp [specStep, hp1]
+
+theorem step_drop (c : Codec) (limit : Nat) (sp : SpecSt) (n : Node) (t : Int) (h : Rel c sp n t) :
+    ∃ sp', specEnd sp (stepOp c limit n .drop).2 = some sp' ∧ Rel c sp' (stepOp c limit n .drop).1 t := by
+  refine ⟨{ sp with pos := n.pos, dropped := true }, rfl, ?_⟩
+  exact { isOpen := h.isOpen, files := h.files, cur := h.cur, curSize := h.curSize, torn := h.torn, intact := h.intact,
+          sorted := h.sorted, nameLe := h.nameLe, lastPos := h.lastPos, lastLe := h.lastLe, incr := h.incr, tsLe := h.tsLe,
+          curLe := h.curLe, named := h.named, pos := rfl, conn := h.conn, durs := h.durs, dropped := rfl, rel := h.rel }
+
 /-! ## clause position_advance_justified on the model's trace -/
 
 def advanceEnd : SpecSt → List Step → Bool
@@ -994,3 +1036,15 @@ theorem step_advance (c : Codec) (limit : Nat) (sp : SpecSt) (n : Node) (t : Int
     apply advanceOk_same
     intro p _
     simp only [specStep, applyDamage_pos]
+  | stopStart now sr tr =>
+    simp only [stepOp, advanceEnd, Bool.and_true, Bool.and_eq_true]
+    refine ⟨advanceOk_same _ _ (lpos_same c sp n _ t h (fun _ => rfl)), ?_, ?_⟩
+    · apply advanceOk_same
+      intro p _
+      cases (newNames n.snd (stop now n.snd)).head? <;> rfl
+    · apply advanceOk_same
+      intro p _
+      cases (newNames n.snd (stop now n.snd)).head? <;> rfl
+  | drop =>
+    simp only [stepOp, advanceEnd, Bool.and_true]
+    exact advanceOk_same _ _ (lpos_same c sp n _ t h (fun _ => rfl))
